@@ -37,6 +37,8 @@ CHECKS["C17"] = dict(text="Theorems (Coq): elapse_refines (feeding n states to u
   ref="6 C17", technique="Coq proof (div/mod identities, induction over elapsed states and over charge lists) + correspondence", note=_TB + "; count claims for CKS 0-3 only; external clock / 16-bit cascade modes are outside the claim")
 CHECKS["C10"] = dict(text="Theorems (Coq): instructions_keep_requests (no instruction of the whole implemented set touches the request queue - proved over every handler), accept_only_unmasked / pending_while_masked, fifo_exactly_once (induction over any interleaving of requests, boundaries and instructions: entered ++ pending = requested, in order), interrupt_refines (acceptance of vector v = the reference's exception entry through 4 x v), entry_return_transparent (entry + RTE restores PC, CCR, SP, registers, memory outside the frame). Correspondence: generated programs with handlers and request bursts injected at arbitrary boundaries; final state, memory and pending queue against the reference interrupt system.",
   ref="6 C10", technique="Coq proof (frame lemma over all handlers by a compositional tactic; induction over event interleavings) + correspondence", note=_TB + "; instruction atomicity is a modelling fact (one exec call per instruction in run()); handlers' own effects are part of the compared state")
+CHECKS["C14"] = dict(text="Theorems (Coq): mes_refines (the TRAPA #0 emulation of the model = the reference calls: write appends exactly the buffer's bytes once to the console and one stdout message and changes nothing else; set_handler installs H'5A000000+address for vectors 1-63 and ignores others; other numbers fail), write_reads_the_buffer (induction on the length), installed_vector_targets_handler. Correspondence: write calls over RAM/DRAM buffers, lengths 0-4096, UTF-8 with NUL/newline/backslash/multi-byte, console bytes captured from the emulator's stdout and the stdout message from the (scripted) control socket; set_handler for vectors 0-255 followed by a request, boundary and the handler's instructions.",
+  ref="6 C14", technique="Coq proof (refinement of the monadic emulation to the reference calls) + correspondence", note=_TB + "; UTF-8 validity of the buffer is a precondition (generator), invalid UTF-8 is outside the claim")
 NOT_APPLICABLE = []
 
 def main():
